@@ -265,6 +265,10 @@ def check_fit_eval(chk, fi) -> Optional[Set[str]]:
         else:
             okc[rule] = okc.get(rule, 0) + 1
 
+    from sa.fragment import coverage
+
+    _cov = coverage()
+    cov = _cov.__enter__()
     try:
         env = fit_env(repo)
         for tag, kind, spec_rows, kw, labels in FIT_TABLES:
@@ -356,8 +360,10 @@ def check_fit_eval(chk, fi) -> Optional[Set[str]]:
                 msg = f"serials {ser}: no number is left for the TER record where the chain changes"
             note("serial-renumber", f"{tag}: {msg}" if msg else None)
         # a table that already fits (PDB rows; mmCIF rows within the limits) is returned itself
-        for fmt, tag in (("PDB", "a PDB-format table"), ("mmCIF", "an mmCIF table within the limits")):
-            if fmt == "PDB":
+        for fmt, tag in (("PDB", "a PDB-format table"), ("mmCIF", "an mmCIF table within the limits"), ("empty", "an empty mmCIF table")):
+            if fmt == "empty":
+                df = frame_from_rows([], "mmCIF")
+            elif fmt == "PDB":
                 from checks.c09e import _row
 
                 df = frame_from_rows([_row("PDB", k, 1, "A") for k in range(3)], "PDB", categories=["record_type", "name", "altLoc", "resName", "chainID", "iCode", "element", "charge"], ints=["serial", "resSeq", "model"])
@@ -373,6 +379,8 @@ def check_fit_eval(chk, fi) -> Optional[Set[str]]:
     except Unknown as ex:
         chk.ok("fit-eval", fi.where, f"fit_to_pdb is not evaluable as a whole on representative tables ({str(ex)[:90]}): the pinned-form rules decide")
         return None
+    finally:
+        _cov.__exit__(None, None, None)
     texts = {
         "residue-map": "every residue (chain, number, insertion code) gets one new number 1..n of its chain, different residues get different numbers, also when its atoms are not contiguous, come in several models or carry arbitrary row labels",
         "chain-map": "chains are renamed one-to-one into single characters",
@@ -390,6 +398,10 @@ def check_fit_eval(chk, fi) -> Optional[Set[str]]:
     if "column-guard" not in bad and okc.get("residue-map", 0) + len(bad.get("residue-map", [])) >= len(FIT_TABLES):
         decided.add("column-guard")  # every table, the one without the optional column included, went through the renumbering
     with evidence(chk, *sorted(set(texts))):
+        from checks.c08e import new_helpers, report_silent_exits
+
+        helpers = [g for g in new_helpers(repo, M) if g is not fi] + ([repo.func(M, "can_write_pdb")] if repo.has_func(M, "can_write_pdb") else [])
+        report_silent_exits(chk, "result", [fi] + helpers, cov, "tables (nine that need fitting, three that do not)", {"continue": "rows or chains are left out of the renaming", "break": "the renaming ends early", "return": "a table is returned before the fitting is complete (or the input itself, unfitted)"})
         for rule in sorted(set(texts)):
             if rule in bad:
                 chk.violation(rule, fi.where, f"evaluated on representative tables: {bad[rule][0]}", K(fi, f"eval:{rule}"), found=bad[rule][:4])
@@ -397,7 +409,7 @@ def check_fit_eval(chk, fi) -> Optional[Set[str]]:
                 for tag, *_ in FIT_TABLES:
                     chk.ok(rule, fi.where, f"evaluated ({tag}): {texts[rule]}")
             elif rule in decided:
-                chk.ok(rule, fi.where, f"evaluated on {len(FIT_TABLES)} tables that need fitting (+2 that do not): {texts[rule]}")
+                chk.ok(rule, fi.where, f"evaluated on {len(FIT_TABLES)} tables that need fitting (+3 that do not): {texts[rule]}")
     return decided | set(bad)
 
 
